@@ -8,7 +8,8 @@
                                    failure, and every view of what it leaves serves exactly the reflexive transitive closure
      c12_total_exact               a Total-shaped version over a structure satisfying C18's invariant serves exactly the closure
      c12_sound_partial             (binary form, EVERY sequence of operations) everything served lies in the closure of the inserted pairs
-     c12_never_panics_partial      (binary form, EVERY sequence of operations) no operation of the provider fails
+     c12_never_panics_partial      (binary form, EVERY sequence of operations) no operation of the provider fails and the inner
+                                   semi-naive loop of every merge terminates (within (number of classes)^2 + 2 rounds)
                                    both relative to the interface [truf_iface] of the union-find structure
      c12_iface_tinv_except_node    C18's invariant satisfies every clause of that interface except the one for add_node
    What the faithful model refutes (computed witnesses, each replayed on the real code by the tie)
@@ -19,7 +20,7 @@
      c12_refuted_ternary_dropped_delta     a dropped delta entry makes the reverse-map views of delta panic
    What is missing (carried by the tie only): the discharge of [truf_iface] for structures that went through add_node on a new
    element (C18's invariant asks for an entry of every live class in both connection maps, add_node creates none);
-   termination of the inner semi-naive loop of the merge (the model's fuel); completeness of delta + total for recursive use and the
+   completeness of delta + total for recursive use and the
    guarded form of law P3; soundness and panic-freedom of the ternary adaptor outside the five refuted behaviours. *)
 From Coq Require Import List Arith Bool ZArith.
 From AV Require Import UF.UfBase.
@@ -44,13 +45,11 @@ Proof. exact total_exact. Qed.
 
 (* ---- every history of the binary form, relative to the interface of the union-find structure *)
 Theorem c12_sound_partial : forall I, truf_iface I -> forall dom ops,
-  (exists st, run_state (bin_prov dom) (ps_init (bin_prov dom)) ops = Ok st /\
-     sound_version (args ops) (s_delta st) /\ sound_version (args ops) (s_total st) /\ sound_version (args ops) (s_stored st)) \/
-  run_state (bin_prov dom) (ps_init (bin_prov dom)) ops = Err NoFuel.
+  exists st, run_state (bin_prov dom) (ps_init (bin_prov dom)) ops = Ok st /\
+     sound_version (args ops) (s_delta st) /\ sound_version (args ops) (s_total st) /\ sound_version (args ops) (s_stored st).
 Proof. exact bin_protocol_sound. Qed.
 
-Theorem c12_never_panics_partial : forall I, truf_iface I -> forall dom ops n e,
-  In (RPanic n e) (run_bin dom ops) -> e = NoFuel.
+Theorem c12_never_panics_partial : forall I, truf_iface I -> forall dom ops n e, ~ In (RPanic n e) (run_bin dom ops).
 Proof. exact bin_never_panics_partial. Qed.
 
 Theorem c12_iface_tinv_except_node : iface_except_node tinv.
